@@ -2,8 +2,8 @@
    Model.Reactor mirrors chython/reactor/base.py (BaseReactor._get_deleted as it is after fix: b90326c, the structural
    part of BaseReactor._patcher) and chython/reactor/reactor.py:fix_mapping_overlap. *)
 From Coq Require Import ZArith List Bool Permutation.
-From Model Require Import PyBase Graph Reactor ReactorStage.
-From Proofs Require Import ReactorProofs ReactorExt ReactorEquiv.
+From Model Require Import PyBase Graph Reactor ReactorStage Stereo.
+From Proofs Require Import ReactorProofs ReactorExt ReactorEquiv StereoProofs ReactorStereo.
 Import ListNotations.
 Open Scope Z_scope.
 
@@ -467,3 +467,43 @@ Theorem C16_patcher_equivariant_example :
     ids (rename_mol (extend_renumbering s 6 9) new) = [8; 7; 6; 10; 9].
 Proof. exact patcher_equivariant_example. Qed.
 Print Assumptions C16_patcher_equivariant_example.
+
+(* ====================================================================================================
+   Atoms the template does not touch: neighbour ORDER and tetrahedral configuration
+   ==================================================================================================== *)
+(* the neighbour dict of an atom the template does not name lists, in the old order, the neighbours that survive *)
+Theorem C16_patcher_untouched_neighbours : forall g mapping tpl del new mp' x,
+  patcher g mapping tpl del = Ok (new, mp') -> wf_mol g = true -> (forall y, In y (ids g) -> 0 < y) ->
+  In x (ids g) -> ~ named tpl mp' x -> ~ In x del ->
+  nbr_ids new x = filter (fun m => negb (zmem m del)) (nbr_ids g x).
+Proof. exact patcher_untouched_neighbours. Qed.
+Print Assumptions C16_patcher_untouched_neighbours.
+
+(* _translate_tetrahedron_sign (Model.Stereo.translate_th, C12) read through the centre's own order is the identity *)
+Theorem C16_translate_th_same : forall (isH : Z -> bool) env s,
+  NoDup env -> (length env = 3%nat \/ length env = 4%nat) -> translate_th isH env env s = Ok s.
+Proof. exact translate_th_same. Qed.
+Print Assumptions C16_translate_th_same.
+
+(* an untouched stereogenic centre none of whose neighbours is deleted has, in the product, the same non-hydrogen
+   neighbours in the same order: the label _patcher stores "as is" (untouched_label) denotes the same configuration --
+   read through the environment of the input structure it is the input sign (for every hydrogen predicate that agrees on
+   the neighbours before and after) *)
+Theorem C16_untouched_centre_same_configuration : forall g mapping tpl del new mp' x (isH isH' : Z -> bool),
+  patcher g mapping tpl del = Ok (new, mp') -> wf_mol g = true -> (forall y, In y (ids g) -> 0 < y) ->
+  In x (ids g) -> ~ named tpl mp' x -> ~ In x del ->
+  (forall m, In m (nbr_ids g x) -> ~ In m del) ->
+  (forall m, In m (nbr_ids g x) -> isH' m = isH m) ->
+  (length (th_env isH g x) = 3%nat \/ length (th_env isH g x) = 4%nat) ->
+  th_env isH' new x = th_env isH g x /\
+  forall s, translate_th isH' (th_env isH' new x) (th_env isH g x) s = Ok s.
+Proof. exact untouched_centre_same_configuration. Qed.
+Print Assumptions C16_untouched_centre_same_configuration.
+
+Theorem C16_untouched_centre_example :
+  wf_mol st_mol = true /\
+  exists new mp', patcher st_mol [(1, 4); (2, 5)] st_tpl [] = Ok (new, mp') /\
+    ~ named st_tpl mp' 2 /\ th_env (fun _ => false) st_mol 2 = [1; 3; 4] /\ nbr_ids new 2 = [1; 3; 4] /\
+    untouched_label [2] st_mol 2 = Some true.
+Proof. exact untouched_centre_example. Qed.
+Print Assumptions C16_untouched_centre_example.
